@@ -2,7 +2,7 @@
     the specification-side closure is complete (it reaches a fixed point within its fuel), so a document whose
     directive definitions the specification finds acyclic makes the model's search report nothing. *)
 From V Require Import Base.Util Gql.Ast C05.Model C05.Spec C05.Proofs C05.Proofs2 C05.Proofs3 C05.Proofs5
-     C05.Proofs6 C05.Proofs7 C05.Proofs10.
+     C05.Proofs6 C05.Proofs13 C05.Proofs7 C05.Proofs10.
 
 Lemma NoDup_snoc {A} (l : list A) x : NoDup l -> ~ In x l -> NoDup (l ++ [x]).
 Proof.
@@ -68,11 +68,11 @@ Section ClosureComplete.
 End ClosureComplete.
 
 (** the model's `directives_in_type` are among the applications the specification sees on the type *)
-Lemma directives_in_type_on t dir : In dir (directives_in_type t) -> In (iname (dir_name dir)) (dirs_on_type t).
+Lemma shallow_dirs_on t dir : In dir (shallow_dirs t) -> In (iname (dir_name dir)) (dirs_on_type t).
 Proof.
   intros H. unfold dirs_on_type. apply in_flat_map.
   assert (G : exists la, In la (type_apps t) /\ In dir (snd la)).
-  { destruct t; cbn [directives_in_type type_apps] in *.
+  { destruct t; cbn [shallow_dirs type_apps] in *.
     - eexists; split; [left; reflexivity | exact H].
     - apply in_app_or in H as [H|H]; [eexists; split; [left; reflexivity | exact H]|].
       apply in_flat_map in H as [f [Hf Hd]]. exists (s "FIELD_DEFINITION", fd_dirs f). split; [right|exact Hd].
@@ -98,14 +98,82 @@ Proof. induction fuel as [|f IH]; intros seen x H; cbn [types_closure]; [exact H
 Lemma reach_types_head doc fuel n : In n (reach_types doc fuel n).
 Proof. unfold reach_types. apply types_closure_incl. left; reflexivity. Qed.
 
+(** the specification-side closure over field types reaches a fixed point within its fuel *)
+Section TypesClosureComplete.
+  Variable doc : tsdoc.
+  Variable D : list str.
+  Let step := flat_map (field_type_names doc).
+  Hypothesis HD : forall ns, incl ns D -> incl (step ns) D.
+
+  Lemma tclosure_fix fuel seen : add_new seen (step seen) = seen -> types_closure doc fuel seen = seen.
+  Proof. induction fuel as [|f IH]; intros H; cbn [types_closure]; [reflexivity|]. fold step. rewrite H. apply IH. exact H. Qed.
+
+  Lemma tclosure_closed fuel : forall seen,
+    NoDup seen -> incl seen D -> length D <= fuel + length seen ->
+    incl (step (types_closure doc fuel seen)) (types_closure doc fuel seen) /\ incl seen (types_closure doc fuel seen).
+  Proof.
+    induction fuel as [|f IH]; intros seen Hnd Hinc Hlen; cbn [types_closure].
+    - split; [|apply incl_refl]. cbn [plus] in Hlen.
+      pose proof (NoDup_length_incl Hnd Hlen Hinc) as HDs. intros x Hx. apply HDs. apply (HD seen Hinc). exact Hx.
+    - fold step. destruct (add_new_cases seen (step seen)) as [E|E].
+      + rewrite E. rewrite (tclosure_fix f seen E). split; [apply add_new_fix; exact E | apply incl_refl].
+      + destruct (IH (add_new seen (step seen))) as [A B].
+        * apply add_new_NoDup. exact Hnd.
+        * intros x Hx. apply In_add_new in Hx as [Hx|Hx]; [apply Hinc; exact Hx | apply (HD seen Hinc); exact Hx].
+        * lia.
+        * split; [exact A|]. intros x Hx. apply B. apply In_add_new. left; exact Hx.
+  Qed.
+
+  Lemma tclosed_tnpath c : incl (step c) c -> forall a x, tnpath doc a x -> In a c -> In x c.
+  Proof.
+    intros Hc a x Hp. induction Hp as [a|a b x He Hp IH]; intros Ha; [exact Ha|].
+    apply IH. apply Hc. unfold step. apply in_flat_map. exists a. split; [exact Ha | exact He].
+  Qed.
+End TypesClosureComplete.
+
 Section RecComplete.
   Variable doc : tsdoc.
   Hypothesis Hu : unique_names doc = true.
   Hypothesis Hunk : ok_directive_unknown doc = true.
-  Variable nst : bool.
-  Hypothesis Hrec : ok_directive_recursive_gen nst doc = true.
+  Hypothesis Hut : ok_unknown_type doc = true.
+  Hypothesis Hrec : ok_directive_recursive doc = true.
 
-  Lemma edge_nedge x y : lookup_d doc (dname x) = Some x -> edge doc x y -> nedge nst doc (dname x) (dname y).
+  (** field types of defined input objects are defined (the unknown-type rule), so the closure stays inside the type names *)
+  Definition tdnames : list str := map tn (types_of doc).
+  Lemma field_types_defined ns : incl ns tdnames -> incl (flat_map (field_type_names doc) ns) tdnames.
+  Proof.
+    intros _ b Hb. apply in_flat_map in Hb as [a [_ Hb]]. unfold field_type_names in Hb.
+    destruct (lookup_t doc a) as [[]|] eqn:L; try contradiction. apply in_map_iff in Hb as [fd [<- Hfd]].
+    apply lookup_t_In in L as [Lin _].
+    unfold ok_unknown_type in Hut. rewrite !andb_true_iff in Hut. destruct Hut as [[[[_ _] H3] _] _].
+    rewrite forallb_forall in H3.
+    assert (Hl : In fields (all_input_field_lists doc)).
+    { unfold all_input_field_lists. apply in_flat_map. eexists. split; [exact Lin | left; reflexivity]. }
+    specialize (H3 _ Hl). rewrite forallb_forall in H3. specialize (H3 fd Hfd). unfold defined in H3.
+    destruct (lookup_t doc (base_name (iv_type fd))) as [t|] eqn:Lt; [|discriminate].
+    apply lookup_t_In in Lt as [Ht Hn]. rewrite <- Hn. unfold tdnames. apply in_map. exact Ht.
+  Qed.
+  Lemma tdnames_length : length tdnames <= length doc.
+  Proof.
+    unfold tdnames. rewrite map_length. unfold types_of. clear. induction doc as [|a r IH]; cbn [flat_map length]; [lia|].
+    rewrite app_length. destruct a; cbn [length]; lia.
+  Qed.
+
+  Lemma tcanon_lookup t : tcanon doc t -> lookup_t doc (tname t) = Some t.
+  Proof. unfold tcanon. rewrite (last_type_lookup doc _ Hu). auto. Qed.
+
+  (** a path of definitions through field types is a path of names *)
+  Lemma treach_tnpath a x : treach doc a x -> tcanon doc a -> tnpath doc (tname a) (tname x) /\ tcanon doc x.
+  Proof.
+    induction 1 as [a|a b c He Hr IH]; intros Ha; [split; [constructor | exact Ha]|].
+    assert (Hb : tcanon doc b /\ tnedge doc (tname a) (tname b)).
+    { destruct a; cbn [tedge] in He; try contradiction. destruct He as [fd [Hfd L]]. split; [eapply last_type_canon; exact L|].
+      unfold tnedge, field_type_names. rewrite (tcanon_lookup _ Ha). apply in_map_iff. exists fd. split; [|exact Hfd].
+      apply last_type_In in L as [_ L]. unfold base_name. symmetry. exact L. }
+    destruct Hb as [Hcb Hedge]. destruct (IH Hcb) as [Hp Hcx]. split; [econstructor; eassumption | exact Hcx].
+  Qed.
+
+  Lemma edge_nedge x y : lookup_d doc (dname x) = Some x -> edge doc x y -> nedge true doc (dname x) (dname y).
   Proof.
     intros L He. exists x. split; [exact L|]. unfold edge, next_of in He. rewrite opt_list_args_of in He. fold (args_of (dd_args x)) in He.
     apply in_flat_map in He as [a [Ha He]]. apply in_flat_map in He as [dir [Hdir Hy]].
@@ -113,13 +181,22 @@ Section RecComplete.
     apply last_directive_In in Ld as [_ Hn]. rewrite Hn.
     unfold dir_succ. apply in_flat_map. exists a. split; [exact Ha|]. apply in_or_app.
     apply in_app_or in Hdir as [Hdir|Hdir]; [left; apply (in_map (fun x0 : directive => iname (dir_name x0))); exact Hdir|]. right.
-    rewrite (last_type_lookup doc _ Hu) in Hdir. fold (base_name (iv_type a)) in Hdir.
-    destruct (lookup_t doc (base_name (iv_type a))) as [td|] eqn:Lt; [|contradiction].
-    apply in_flat_map. exists (base_name (iv_type a)). split; [destruct nst; [apply reach_types_head | left; reflexivity]|]. rewrite Lt.
-    apply directives_in_type_on. exact Hdir.
+    destruct (last_type doc (iname (ty_unwrapped (iv_type a)))) as [td|] eqn:Lt; [|contradiction].
+    pose proof (last_type_canon _ _ _ Lt) as Hctd.
+    destruct (dit_sound doc _ _ _ _ Hdir) as [t [Hr Hsh]].
+    destruct (treach_tnpath _ _ Hr Hctd) as [Hp Hct].
+    pose proof (last_type_In _ _ _ Lt) as [Htdin Htdn]. fold (base_name (iv_type a)) in Htdn.
+    (* the closure from the argument's type is closed, hence contains the name of t *)
+    assert (Hstart : incl [base_name (iv_type a)] tdnames).
+    { intros z [<-|[]]. rewrite <- Htdn. unfold tdnames. apply (in_map tn). exact Htdin. }
+    destruct (tclosure_closed doc tdnames field_types_defined (length doc) [base_name (iv_type a)]) as [Hclosed Hsub].
+    { constructor; [intros [] | constructor]. } { exact Hstart. } { pose proof tdnames_length. cbn [length]. lia. }
+    apply in_flat_map. exists (tname t). split.
+    - unfold reach_types. rewrite <- Htdn in *. apply (tclosed_tnpath doc _ Hclosed _ _ Hp). apply Hsub. left; reflexivity.
+    - rewrite (tcanon_lookup _ Hct). apply shallow_dirs_on. exact Hsh.
   Qed.
 
-  Lemma reach_npath n x y : reach doc n x y -> lookup_d doc (dname x) = Some x -> npath nst doc n (dname x) (dname y).
+  Lemma reach_npath n x y : reach doc n x y -> lookup_d doc (dname x) = Some x -> npath true doc n (dname x) (dname y).
   Proof.
     induction 1 as [x|n x x1 y He Hr IH]; intros L; [constructor|].
     econstructor; [apply edge_nedge; [exact L | exact He]|]. apply IH.
@@ -127,7 +204,7 @@ Section RecComplete.
   Qed.
 
   (** names of applied directives are names of definitions *)
-  Lemma succ_in_dnames ns : incl ns (dnames doc) -> incl (succ_names nst doc ns) (dnames doc).
+  Lemma succ_in_dnames ns : incl ns (dnames doc) -> incl (succ_names true doc ns) (dnames doc).
   Proof.
     intros _ b Hb. apply In_succ_names in Hb as [a [_ [x [Lx Hb]]]]. apply lookup_d_In in Lx as [Hx _].
     assert (G : exists la dir, In la (all_apps doc) /\ In dir (snd la) /\ iname (dir_name dir) = b).
@@ -156,20 +233,20 @@ Section RecComplete.
     intros Hd n y Hr Hy.
     assert (L : lookup_d doc (dname d) = Some d) by (apply lookup_d_self; assumption).
     pose proof (reach_npath _ _ _ Hr L) as Hp. rewrite Hy in Hp.
-    unfold ok_directive_recursive_gen in Hrec. rewrite forallb_forall in Hrec. specialize (Hrec d Hd).
+    unfold ok_directive_recursive, ok_directive_recursive_gen in Hrec. rewrite forallb_forall in Hrec. specialize (Hrec d Hd).
     apply negb_true_iff in Hrec. unfold reaches_self in Hrec.
-    set (start := add_new [] (dir_succ nst doc d)) in *.
+    set (start := add_new [] (dir_succ true doc d)) in *.
     assert (Hstart : NoDup start) by (apply add_new_NoDup; constructor).
     assert (Hinc : incl start (dnames doc)).
     { intros b Hb. apply In_add_new in Hb as [[]|Hb]. apply (succ_in_dnames [dname d]).
       - intros ? [<-|[]]. unfold dnames. apply in_map. exact Hd.
       - apply In_succ_names. exists (dname d). split; [left; reflexivity|]. exists d. split; [exact L | exact Hb]. }
-    destruct (closure_closed nst doc (dnames doc) succ_in_dnames (length doc) start Hstart Hinc) as [Hclosed Hsub].
+    destruct (closure_closed true doc (dnames doc) succ_in_dnames (length doc) start Hstart Hinc) as [Hclosed Hsub].
     { pose proof dnames_length. lia. }
     inversion Hp as [|? ? b ? He Hp']; subst.
-    assert (Hb : In b (closure nst doc (length doc) start)).
+    assert (Hb : In b (closure true doc (length doc) start)).
     { apply Hsub. apply In_add_new. right. destruct He as [x [Lx Hb]]. rewrite L in Lx. injection Lx as <-. exact Hb. }
-    pose proof (closed_npath nst doc _ Hclosed _ _ _ Hp' Hb) as Hself.
+    pose proof (closed_npath true doc _ Hclosed _ _ _ Hp' Hb) as Hself.
     apply existsb_str_In in Hself. unfold dname in Hself. rewrite Hself in Hrec. discriminate.
   Qed.
 
@@ -181,24 +258,23 @@ End RecComplete.
 Lemma all_rules_all r : In r all_rules.
 Proof. destruct r; cbn; tauto. Qed.
 
-(** [b] = true: the specification's reading of every rule; [b] = false: the implementation's scope of the one
-    partially enforced rule (directive self-reference).  Both imply that nothing is reported. *)
-Theorem complete_gen b doc :
-  unique_names doc = true -> ok_app_arg_unique doc = true -> ok_app_args_nonempty doc = true ->
-  (forall r, rule_ok_gen b r doc = true) -> check_doc doc = [].
+Theorem complete_rules doc :
+  unique_names doc = true -> ok_app_args_nonempty doc = true ->
+  (forall r, rule_ok r doc = true) -> check_doc doc = [].
 Proof.
-  intros Hu Hau Hne HR.
+  intros Hu Hne HR.
   apply check_doc_nil. intros d Hd. destruct d as [sd|t|dd|se|te]; cbn [check_def]; try reflexivity.
   - eapply schema_complete; eassumption.
   - eapply typedef_complete; try eassumption. apply In_types_of. exact Hd.
   - unfold check_directive_def. apply In_directives_of in Hd.
-    erewrite (recursion_complete doc Hu (HR RDirectiveUnknown)); [| exact (HR RDirectiveRecursive) | exact Hd]. cbn [app].
+    rewrite (next_of_fuel_enough doc dd). cbn [app].
+    erewrite (recursion_complete doc Hu (HR RDirectiveUnknown) (HR RUnknownType)); [| exact (HR RDirectiveRecursive) | exact Hd]. cbn [app].
     eapply directive_def_rest_complete; eassumption.
 Qed.
 
 Theorem complete doc : spec_valid doc = true -> check_doc doc = [].
 Proof.
-  unfold spec_valid. rewrite !andb_true_iff. intros [[[[[[[Hu Hrules] Hau] Hne] _] _] _] _].
-  apply (complete_gen true); try assumption.
+  unfold spec_valid. rewrite !andb_true_iff. intros [[[[[[[[Hu Hrules] _] Hne] _] _] _] _] _].
+  apply complete_rules; try assumption.
   intros r. rewrite forallb_forall in Hrules. apply (Hrules r). apply all_rules_all.
 Qed.
